@@ -317,6 +317,16 @@ class RulesMixin:
         for cl in cc.inv:
             self.assume_clause(cl, {"self": obj}, None, None, f"inv {cl.name}")
 
+    def spec_eval_p(self, cl, env, old_env=None, module=None):
+        """evaluate a clause that is about to be *proved*: a clause that is undefined on the state
+        (missing attribute / key) evaluates to False with the reason noted on the obligation"""
+        prev = getattr(self, "proving_clause", False)
+        self.proving_clause = True
+        try:
+            return self.spec_eval(cl, env, old_env, module)
+        finally:
+            self.proving_clause = prev
+
     def as_z3_bool(self, v):
         t = ops.truth(self.ctx, v)
         return z3.BoolVal(t) if isinstance(t, bool) else t
@@ -334,11 +344,21 @@ class RulesMixin:
         if old_env is not None:
             fr.old = old_env
         b0 = getattr(self, "bottoms", 0)
+        proving = getattr(self, "qmode", "prove") == "prove" and getattr(self, "proving_clause", False)
         try:
             v = self.ev(cl.node, fr)
         except PyRaise as pr:
+            if proving and isinstance(pr.exc.cls, type) and issubclass(pr.exc.cls, (AttributeError, KeyError, IndexError, TypeError)):
+                # the clause is not even defined on this state (e.g. the code no longer sets the
+                # attribute it speaks about): it is certainly not established
+                self.ctx.pending_note = f"clause undefined on this state: {pr}"
+                return False
             raise ContractError(f"clause {cl.name} ({cl.text}) raised {pr}")
         if getattr(self, "bottoms", 0) != b0 and getattr(self, "qmode", "prove") == "prove":
+            if proving:
+                self.bottoms = b0
+                self.ctx.pending_note = f"clause undefined on this state: partial operation {getattr(self, 'bottom_where', '')}"
+                return False
             raise ContractError(f"clause {cl.name}: partial operation {getattr(self, 'bottom_where', '')} is not guarded (the clause would hold vacuously)")
         return v
 
@@ -472,7 +492,7 @@ class RulesMixin:
         except Exception:
             cmod = None
         for cl in fc.requires:
-            v = self.spec_eval(cl, env, None, cmod)
+            v = self.spec_eval_p(cl, env, None, cmod)
             # a precondition at a call site is the caller's obligation: it counts for whichever
             # property the calling unit is checked under
             ctx.prove(f"{unit}.call.{cl.name}", self.as_z3_bool(v), cl.text, fr.where(), note=f"precondition of {fc.qualname}", props=())
@@ -661,7 +681,7 @@ class RulesMixin:
 
             gmod0 = _mi(obj.cls.__module__)
         for cl in mk_clauses(f"{cb.name}.pre", cb.requires):
-            v = self.spec_eval(cl, env, None, gmod0)
+            v = self.spec_eval_p(cl, env, None, gmod0)
             ctx.prove(f"{unit}.call.{cl.name}", self.as_z3_bool(v), cl.text, fr.where(), note=f"precondition of callback {cb.name}", props=cl.props)
         if cb.record:
             self.traces.setdefault(cb.record, []).append(args[0] if len(args) == 1 else tuple(args))
@@ -721,7 +741,7 @@ class RulesMixin:
             cc = self.class_contract(us)
             if cc is not None:
                 for cl in cc.inv:
-                    v = self.spec_eval(cl, {"self": us}, None)
+                    v = self.spec_eval_p(cl, {"self": us}, None)
                     ctx.prove(f"{unit}.yield.{cl.name}", self.as_z3_bool(v), cl.text, fr.where(), note=f"invariant before yield ({why})", props=cl.props)
                 self.check_guarantee(fr.where(), why)
                 self.prove_published(fr.where())
@@ -790,7 +810,7 @@ class RulesMixin:
                 if icc is not None and icc.published_inv:
                     present = z3.Not(v.is_none) if isinstance(v, SymOpt) else z3.BoolVal(True)
                     for cl in icc.published_inv:
-                        val = self.spec_eval(cl, {"self": inner}, None)
+                        val = self.spec_eval_p(cl, {"self": inner}, None)
                         self.ctx.prove(f"{unit}.published.{cl.name}", z3.Implies(present, self.as_z3_bool(val)), cl.text, where, note=f"published invariant of self.{f}", props=cl.props)
             if isinstance(v, SymMap):
                 for (k, el) in v.cache:
@@ -800,7 +820,7 @@ class RulesMixin:
                             continue
                         stored = z3.Select(v.has, k)
                         for cl in cc.published_inv:
-                            val = self.spec_eval(cl, {"self": el}, None)
+                            val = self.spec_eval_p(cl, {"self": el}, None)
                             self.ctx.prove(f"{unit}.published.{cl.name}", z3.Implies(stored, self.as_z3_bool(val)), cl.text, where, note=f"published invariant of an element of self.{f}", props=cl.props)
 
     def time_passes(self, fr):
@@ -853,7 +873,7 @@ class RulesMixin:
             if task != mine:
                 clauses.extend(cls_)
         for cl in clauses:
-            v = self.spec_eval(cl, {"self": us}, seg)
+            v = self.spec_eval_p(cl, {"self": us}, seg)
             self.ctx.prove(f"{unit}.guarantee.{cl.name}", self.as_z3_bool(v), cl.text, where, note=f"guarantee of the segment ending at ({why})", props=cl.props)
 
     def havoc_object_fields(self, obj: SObj):
@@ -1025,6 +1045,8 @@ class RulesMixin:
             conc = list(it.items.keys())
         elif isinstance(it, SymSeq):
             conc, tail = [], it
+        elif type(it).__name__ == "ReversedIter":
+            conc, tail = [], it
         elif isinstance(it, SymAny):
             tag, val = ops.any_split(ctx, it, "iter", interesting=())
             # iterable or not: one alternative each (elements are arbitrary values either way)
@@ -1100,7 +1122,7 @@ class RulesMixin:
         # 1. invariant holds on entry
         pre_env = self.snapshot_env(dict(fr.locals))
         for cl in invs:
-            v = self.spec_eval_loop(cl, env_for(0), pre_env, fr)
+            v = self.spec_eval_loop(cl, env_for(0), pre_env, fr, proving=True)
             ctx.prove(f"{unit}.{label}.entry.{cl.name}", self.as_z3_bool(v), cl.text, fr.where(), note="loop invariant on entry")
         if heap and self.unit_self is not None and not getattr(self, "in_init", False):
             self.prove_unit_inv(fr, f"{label}.entry")
@@ -1197,7 +1219,7 @@ class RulesMixin:
         from .contracts import mk_clauses as _mk
 
         for cl in _mk(f"{label}.body", spec.get("body_ensures")):
-            v = self.spec_eval_loop(cl, env_for(mk_int(i) if i is not None else 0), pre_env, fr)
+            v = self.spec_eval_loop(cl, env_for(mk_int(i) if i is not None else 0), pre_env, fr, proving=True)
             ctx.prove(f"{unit}.{cl.name}", self.as_z3_bool(v), cl.text, fr.where(), note="postcondition of one loop iteration", props=cl.props)
         for f_, v_ in stable_before.items():
             same = self.unit_self.fields.get(f_, UNSET) is v_
@@ -1205,14 +1227,14 @@ class RulesMixin:
         # back edge: invariant preserved
         nxt = mk_int(i + 1) if i is not None else 0
         for cl in invs:
-            v = self.spec_eval_loop(cl, env_for(nxt), pre_env, fr)
+            v = self.spec_eval_loop(cl, env_for(nxt), pre_env, fr, proving=True)
             ctx.prove(f"{unit}.{label}.preserve.{cl.name}", self.as_z3_bool(v), cl.text, fr.where(), note="loop invariant preserved")
         if heap and self.unit_self is not None and not getattr(self, "in_init", False):
             self.prove_unit_inv(fr, f"{label}.backedge")
             self.check_guarantee(fr.where(), f"{label} back edge")
         raise PathEnd("loop iteration done")
 
-    def spec_eval_loop(self, cl, env, pre_env, fr):
+    def spec_eval_loop(self, cl, env, pre_env, fr, proving=False):
         f2 = Frame(f"spec:{cl.name}", fr.module, spec=True)
         f2.locals.update(env)
         f2.old = pre_env
@@ -1220,6 +1242,14 @@ class RulesMixin:
         try:
             return self.ev(cl.node, f2)
         except PyRaise as pr:
+            if isinstance(pr.exc.cls, type) and issubclass(pr.exc.cls, (NameError, AttributeError, KeyError, IndexError, TypeError)):
+                # the invariant speaks about something the code no longer has (a local that is
+                # gone, say): where it has to be proved it is not established; where it would
+                # be assumed nothing is assumed
+                if proving:
+                    self.ctx.pending_note = f"invariant undefined on this state: {pr}"
+                    return False
+                return True
             raise ContractError(f"loop invariant {cl.name} ({cl.text}) raised {pr}")
 
     def prove_unit_inv(self, fr, label):
@@ -1229,12 +1259,14 @@ class RulesMixin:
         if cc is None:
             return
         for cl in cc.inv:
-            v = self.spec_eval(cl, {"self": us}, None)
+            v = self.spec_eval_p(cl, {"self": us}, None)
             self.ctx.prove(f"{unit}.{label}.{cl.name}", self.as_z3_bool(v), cl.text, fr.where(), note=f"class invariant at {label}")
 
     def tail_len(self, tail):
         if isinstance(tail, SymSeq):
             return z3.Length(tail.e)
+        if type(tail).__name__ == "ReversedIter":
+            return tail.length()
         if hasattr(tail, "e") and hasattr(tail, "elem"):
             return z3.Length(tail.e)
         n = self.ctx.fresh("n_iter", z3.IntSort())
@@ -1321,31 +1353,81 @@ class RulesMixin:
             j = ctx.fresh("_j", z3.IntSort())
             elem_of = lambda: self.seq_elem(seq, j)
             ctx.assume(z3.And(j >= 0))
-        k = ctx.choose(2, f"comp@{e.lineno}", ["nonempty", "empty"])
-        if k == 1:
-            ctx.assume_checked(src_len == 0, "empty comp")
-            return PList([])
-        ctx.assume_checked(src_len > 0, "nonempty comp")
-        if not isinstance(it, SymAny):
-            ctx.assume(j < src_len)
+        if not fr.spec:
+            k = ctx.choose(2, f"comp@{e.lineno}", ["nonempty", "empty"])
+            if k == 1:
+                ctx.assume_checked(src_len == 0, "empty comp")
+                return PList([])
+            ctx.assume_checked(src_len > 0, "nonempty comp")
+            if not isinstance(it, SymAny):
+                ctx.assume(j < src_len)
+        # (inside a clause no case split is made: the element expression is evaluated on an
+        # arbitrary element only to learn the element sort)
         self.assign(g.target, elem_of(), f2)
         for c in g.ifs:
             self.ev(c, f2)
         sample = self.ev(e.elt, f2)
         ctx.assumptions_used.add("list comprehension over a symbolic sequence: result content uninterpreted (length bound only)")
+        sig = self.closed_signature(e.elt, g, fr) if not isinstance(it, SymAny) and not g.ifs else None
+
+        def mk(sort):
+            if sig is not None:
+                # the element expression mentions only its own variable: the result is a function
+                # of the source sequence (the same comprehension elsewhere yields the same term)
+                return z3.Function(f"comp[{sig}]", seq.e.sort(), sort)(seq.e)
+            return ctx.fresh("comp", sort)
+
         if isinstance(sample, tuple) and len(sample) == 2:
-            r = SymSeq(ctx.fresh("comp", PairSeq), "pair")
+            r = SymSeq(mk(PairSeq), "pair")
         elif isinstance(sample, (SymStr, str, bytes)):
             from .sym import kind_of_strlike
 
-            r = SymSeq(ctx.fresh("comp", StrSeq), "str" if kind_of_strlike(sample) == "str" else "bstr")
+            r = SymSeq(mk(StrSeq), "str" if kind_of_strlike(sample) == "str" else "bstr")
         else:
             raise Unsupported(f"comprehension element {sample!r}")
+        if sig is not None and isinstance(sample, SymStr) and not isinstance(g.target, ast.Tuple):
+            # pointwise definition, usable when the result is indexed directly
+            from .sym import str_to_z3 as _s2z
+
+            elem0 = seq.e[j]
+            sv = _s2z(sample)
+            ctx.seq_defs.append((r.e, lambda idx, _sv=sv, _e0=elem0, _src=seq.e: z3.substitute(_sv, (_e0, _src[idx]))))
         if g.ifs:
             ctx.assume(z3.Length(r.e) <= src_len)
         else:
             ctx.assume(z3.Length(r.e) == src_len)
         return PList(sym=r)
+
+    def closed_signature(self, elt, g, fr):
+        """canonical text of a comprehension / generator element expression whose only free
+        variable is the (single-name) loop target, else None"""
+        if not isinstance(g.target, ast.Name):
+            return None
+        tgt = g.target.id
+        import builtins as _b
+
+        for n in ast.walk(elt):
+            if isinstance(n, ast.Name) and n.id != tgt:
+                if n.id in fr.locals or (fr.parent is not None and self._visible_local(n.id, fr)):
+                    return None
+                if not hasattr(_b, n.id):
+                    return None
+
+        class _R(ast.NodeTransformer):
+            def visit_Name(self, n):
+                return ast.copy_location(ast.Name("_x", n.ctx), n) if n.id == tgt else n
+
+        import copy as _c
+
+        return ast.unparse(_R().visit(_c.deepcopy(elt)))
+
+    def _visible_local(self, name, fr):
+        f = fr
+        while f is not None:
+            if name in f.locals:
+                return True
+            f = f.parent
+        return False
 
     def quantify_genexp(self, e, fr, is_any):
         """any()/all() over a generator expression"""
@@ -1393,13 +1475,14 @@ class RulesMixin:
         if elem is not None and is_any:
             # any(<pred>(x) for x in seq): a function of the sequence (one predicate per call site
             # family; contracts refer to it through tokens_have_upgrade)
-            anyf = z3.Function("any_over", elem.e.sort(), z3.BoolSort())
+            sig = self.closed_signature(e.elt, g, fr) if not g.ifs else None
+            anyf = z3.Function(f"any_over[{sig}]" if sig else "any_over", elem.e.sort(), z3.BoolSort())
             r = anyf(elem.e)
         else:
             r = z3.Bool(ctx.fresh_name("any" if is_any else "all"))
         ctx.assume(z3.Implies(n == 0, r == z3.BoolVal(not is_any)))
         ctx.assumptions_used.add("any()/all() over a symbolic collection: result uninterpreted except for the empty case")
-        if elem is not None and ctx.check(n > 0) != z3.unsat:
+        if elem is not None and not fr.spec and ctx.check(n > 0) != z3.unsat:
             k = ctx.choose(2, f"genexp@{e.lineno}", ["sample", "skip"])
             if k == 0:
                 j = ctx.fresh("_j", z3.IntSort())
